@@ -2,6 +2,7 @@
 pub mod name;
 pub mod rdata;
 pub mod resolve;
+pub mod scan;
 pub mod tsig;
 pub mod wire;
 pub mod zone;
